@@ -282,6 +282,9 @@ def _argmax_tie_class(prog, body):
     return None
 
 
+PARTIAL_ON_NEGATIVE = ("::powf", "::sqrt", "::ln", "::log", "::log2", "::log10", "::ln_1p")
+
+
 def _raw_dep(t, leaf):
     """does term t depend on a leaf satisfying `leaf` other than through abs(..)?"""
     seen = set()
@@ -293,6 +296,11 @@ def _raw_dep(t, leaf):
         seen.add(id(s))
         if isinstance(s[0], str):
             if s[0] == "call" and s[1].endswith("::abs"):
+                # abs() shields the sign only if nothing undefined for negative arguments was applied before it:
+                # |x^p| is NaN for x < 0 and fractional p, |x|^p is not
+                inner = [u for u in subterms(s[2][0]) if u[0] == "call" and u[1].endswith(PARTIAL_ON_NEGATIVE)] if s[2] else []
+                if any(_raw_dep(u, leaf) for u in inner):
+                    return True
                 continue
             if leaf(s):
                 return True
